@@ -102,7 +102,9 @@ def run_case(case):
         s = SM.Sim(cfg, monitors=[])
         apply_auth_fault(s, cfg, case.get('auth_fault'))
         for op in case['ops']:
-            if op[0] == 'stranger':
+            if op[0] == 'threshold':
+                s.eps[op[1]].ctrl.cookie_threshold = op[2]          # under load: the responder asks for cookies
+            elif op[0] == 'stranger':
                 # an IKE_SA_INIT request from an address no connection is configured for (anybody can send that), or an ACQUIRE
                 # towards such an address (a policy the administrator added by hand)
                 v6 = ':' in cfg['addr_a']
@@ -154,8 +156,12 @@ def run_case(case):
         if getattr(dh, 'shared_secret', None):
             secrets.append(('dh-secret', bytes(dh.shared_secret)))
     secrets = [(k, v) for k, v in secrets if len(v) >= 8]
-    hi = '\n'.join(t for lv, t in cap.records if lv >= logging.INFO)
-    lo = '\n'.join(t for lv, t in cap.records if lv < logging.INFO)
+    # what counts as "at the default level": in a run with the root logger at INFO (the daemon's default set-up) everything
+    # that reaches the root handlers was written to the log, whatever level the record claims (a logger with its own lower
+    # level gets its DEBUG records through); in the DEBUG control runs only the records of level INFO and above
+    shown = (lambda lv: True) if not debug_run else (lambda lv: lv >= logging.INFO)
+    hi = '\n'.join(t for lv, t in cap.records if shown(lv))
+    lo = '\n'.join(t for lv, t in cap.records if not shown(lv))
     fails = []
     hits_debug = 0
     for kind, v in secrets:
@@ -164,11 +170,13 @@ def run_case(case):
             hits_debug += 1
         for f in fs:
             if f in hi:
-                lv, text = next((lv, t) for lv, t in cap.records if lv >= logging.INFO and f in t)
+                lv, text = next((lv, t) for lv, t in cap.records if shown(lv) and f in t)
                 where = text.replace(f, '<SECRET>')[:160]
                 if not any(x.sig == f'secret-in-log:{kind}:{logging.getLevelName(lv)}' for x in fails):
                     fails.append(Failure(f'secret-in-log:{kind}:{logging.getLevelName(lv)}',
-                                         f'a {logging.getLevelName(lv)} record contains a {kind}: "{where}"'))
+                                         f'a {logging.getLevelName(lv)} record ' +
+                                         ('written although the root logger is at INFO ' if lv < logging.INFO else '') +
+                                         f'contains a {kind}: "{where}"'))
                 break
     est = any(q.ike_sa_keyring is not None for ep in s.eps.values() for q in ep.sas) or len(ob.sessions) > 0
     info = {'n_secrets': len(secrets), 'debug_hits': hits_debug, 'records_hi': sum(1 for lv, _ in cap.records if lv >= logging.INFO),
@@ -310,7 +318,8 @@ def cases(draw):
         st.builds(lambda s_, k: ['stranger', s_, k], st.sampled_from(['a', 'b']), st.sampled_from(['init', 'acquire'])),
         st.builds(lambda s_, k, m: ['hostile', s_, k, m], st.sampled_from(['a', 'b']), st.integers(0, 20),
                   st.lists(st.tuples(st.sampled_from(['flip', 'set']), st.integers(0, 400), st.integers(0, 255)).map(list), max_size=2)))
-    ops = [['acquire', first, 0, 1]] + draw(st.lists(st.one_of(trig, deliver, deliver, deliver, others, others), min_size=4, max_size=30))
+    pre = [['threshold', 'a', -1], ['threshold', 'b', -1]] if draw(st.integers(0, 4)) == 0 else []
+    ops = pre + [['acquire', first, 0, 1]] + draw(st.lists(st.one_of(trig, deliver, deliver, deliver, others, others), min_size=4, max_size=30))
     return {'cfg': cfg, 'auth_fault': af, 'ops': ops, 'debug': draw(st.integers(0, 3)) == 0}
 
 
@@ -331,6 +340,9 @@ def directed_cases():
                               ('dpd', [['dpd', 'a', 0]] + full + [['dpd', 'b', 0]] + full)):
                 out.append({'cfg': cfg, 'auth_fault': 'none', 'debug': False, 'directed': name,
                             'ops': [['acquire', first, 0, 1]] + full + ops})
+            out.append({'cfg': cfg, 'auth_fault': 'none', 'debug': False, 'directed': 'cookie',
+                        'ops': [['threshold', 'a', -1], ['threshold', 'b', -1], ['acquire', first, 0, 1]] + full + full +
+                               [['rekey_ike', first, 0]] + full})
     return out
 
 
